@@ -93,6 +93,7 @@ def ASt.apply (a : ASt) : DOp → ASt × DRes
   | .back l => (a, .ptr (a.seq l).getLast?)
   | .next e => (a, .ptr (a.next e))
   | .prev e => (a, .ptr (a.prev e))
+  | .setValue e v => ({ a with val := fun n => if n = e then v else a.val n }, .unit)
 
 /-- A node that may be handed to the node-inserting forms: allocated and in no list
 (fresh from `new`, or removed earlier). -/
@@ -110,7 +111,7 @@ def DOp.ok (a : ASt) : DOp → Prop
   | .moveToFront l _ | .moveToBack l _ | .moveBefore l _ _ | .moveAfter l _ _ | .remove l _ => l < a.nl
   | .pushBackDList l o | .pushFrontDList l o => l < a.nl ∧ o < a.nl
   | .len l | .front l | .back l => l < a.nl
-  | .next _ | .prev _ => True
+  | .next _ | .prev _ | .setValue _ _ => True
 
 /-- The abstraction relation between a memory and the specification state. -/
 structure Abs (s : DSt) (a : ASt) : Prop where
@@ -365,6 +366,12 @@ theorem apply_refines {s : DSt} {a : ASt} (h : Abs s a) (op : DOp) (hok : op.ok 
     exact ⟨s, by simp [DSt.apply, ASt.apply, (front_spec h.inv hl).2.1], h⟩
   | next e => exact ⟨s, by simp [DSt.apply, ASt.apply, nodeNext_abs h e], h⟩
   | prev e => exact ⟨s, by simp [DSt.apply, ASt.apply, nodePrev_abs h e], h⟩
+  | setValue e v =>
+    have g := h.inv
+    refine ⟨{ s with val := s.val.set e v }, rfl, ⟨⟨fun l hl => ⟨(g.lists l hl).ring, (g.lists l hl).nodup,
+      (g.lists l hl).owner, (g.lists l hl).len⟩, g.nodes, g.freshOk, g.clean, g.rootOwner, g.ownerRange,
+      g.unalloc⟩, fun n => ?_, hnl, hfr⟩⟩
+    simp only [ASt.apply, IM.get_set, h.val n]
 
 /-! ### operation lists -/
 
@@ -400,7 +407,7 @@ theorem run_refines {s : DSt} {a : ASt} (h : Abs s a) (ops : List DOp) (hok : Op
 
 /-- The list a call is issued on (its receiver). -/
 def DOp.receiver : DOp → Option Nat
-  | .new _ | .next _ | .prev _ => none
+  | .new _ | .next _ | .prev _ | .setValue _ _ => none
   | .init l | .pushFront l _ | .pushBack l _ | .insertBefore l _ _ | .insertAfter l _ _
   | .pushFrontNode l _ | .pushBackNode l _ | .insertNodeBefore l _ _ | .insertNodeAfter l _ _
   | .moveToFront l _ | .moveToBack l _ | .moveBefore l _ _ | .moveAfter l _ _ | .remove l _
@@ -410,13 +417,14 @@ def DOp.receiver : DOp → Option Nat
 changes the value of no node that existed before. -/
 theorem spec_frame (a : ASt) (op : DOp) :
     (∀ k, op.receiver ≠ some k → (a.apply op).1.seq k = a.seq k) ∧
-    (∀ n, n < a.fresh → (a.apply op).1.val n = a.val n) ∧
+    (∀ n, n < a.fresh → (∀ v, op ≠ .setValue n v) → (a.apply op).1.val n = a.val n) ∧
     a.fresh ≤ (a.apply op).1.fresh ∧ (a.apply op).1.nl = a.nl := by
   have hupd : ∀ (l k : Nat) (L : List Nat), some l ≠ some k → upd a.seq l L k = a.seq k := by
     intro l k L hne; exact upd_other _ _ _ (fun hh => hne (by rw [hh]))
   cases op <;> simp only [ASt.apply, DOp.receiver, ASt.setSeq, ASt.allocV] <;>
-    (try split) <;> refine ⟨fun k hk => ?_, fun n hn => ?_, ?_, ?_⟩ <;>
+    (try split) <;> refine ⟨fun k hk => ?_, fun n hn hsv => ?_, ?_, ?_⟩ <;>
     first
+    | exact if_neg (fun hh => hsv _ (by rw [hh]))
     | trivial
     | rfl
     | exact hupd _ _ _ hk
